@@ -5,7 +5,8 @@
 usage: validate_seeds.py [seed ids like C09/m1 ...]   (default: all under /tmp/seeds)"""
 import glob, json, os, shutil, subprocess, sys
 WT = '/tmp/wt/validate'
-BASE = '/tmp/seeds'
+BASE = os.environ.get('SEED_BASE', '/tmp/seeds')
+PREFIX = os.environ.get('SEED_PREFIX', '')
 OUT = '/verif/seeded'
 
 def sh(cmd, **kw):
@@ -34,7 +35,7 @@ for sd in seeds:
     print('%-8s clean-demo rc=%d  patched-demo rc=%d  suite: %s  => %s' % (sd, r0.returncode, r1.returncode, t.stdout.strip().splitlines()[-1] if t.stdout.strip() else '?', 'KEEP' if ok else 'REJECT'), flush=True)
     if ok:
         meta = json.load(open(os.path.join(d, 'meta.json')))
-        sid = sd.replace('/', '-')
+        sid = PREFIX + sd.replace('/', '-')
         od = os.path.join(OUT, sid)
         os.makedirs(od, exist_ok=True)
         shutil.copy(os.path.join(d, 'patch.diff'), od)
